@@ -732,7 +732,7 @@ fn c08(c: &mut Checker) {
                 &exp,
                 &r,
                 Strict::Full,
-                &|cl| matches!(cl, "MissingField" | "Unexpected"),
+                &|cl| matches!(cl, "MissingField" | "Unexpected" | "Foreign"),
                 &mut out,
             );
             m_value_nodup(c, &exp, &r, &mut out);
@@ -757,12 +757,11 @@ fn c09(c: &mut Checker) {
     let root = c.env.cat.programs[c.scn.program].root.clone();
     if let Some((cfg, r, exp)) = model_run(c, Source::Sim, &|_| true) {
         let mut out = vec![];
-        rules::m_reports("M-reports", &exp, &r, Strict::Full, &|cl| cl == "UnknownKey", &mut out);
+        rules::m_reports("M-reports", &exp, &r, Strict::Full, &|cl| cl == "UnknownKey" || cl == "Foreign", &mut out);
         rules::m_calls_opt("M-calls", &exp, &r, false, c.scn.has_dup, &|s| s == CallStage::Unknown, &mut out);
         // "is reported": the report must also be in the error the call returns
         out.extend(conservation_rules(&r));
-        let n = exp.reports.iter().filter(|e| matches!(e.class, simcore::model::ExpClass::UnknownKey { .. })).count();
-        c.stats.bump("expected_unknown_key_reports", n as u64);
+        c.stats.bump("expected_unknown_key_reports", exp.unknown_denied as u64);
         c.record(out, &cfg, &r);
         // X-spurious: where unknown keys are not denied they have no influence whatsoever.
         // Compare with the same document stripped of every member no field reads; positions
@@ -778,7 +777,7 @@ fn c09(c: &mut Checker) {
             let reps = drop_unknown(reps);
             let reps_s = drop_unknown(reps_s);
             // value comparison only when neither side fails (denied unknown keys make one side fail)
-            let denied = exp.reports.iter().any(|e| matches!(e.class, simcore::model::ExpClass::UnknownKey { .. }));
+            let denied = exp.unknown_denied > 0;
             let mut out = vec![];
             // where an unknown key IS denied the two runs legitimately part ways (the container
             // fails, so its map / validate functions do not run): the metamorphic rule is about
@@ -1172,7 +1171,8 @@ pub fn profile(prop: Prop, env: &Env) -> Profile {
         }
         Prop::C14 => {
             p.never.dup = true;
-            p.never.nonfinite = true;
+            allowed.nonfinite = true;
+            p.allowed = allowed;
             p.rates_pm = vec![40, 100, 250];
         }
         Prop::C15 => {
